@@ -217,6 +217,10 @@ class DecompressionBaseHandler(ABC):
     def data_available(self) -> bool:
         """Return True if more output is available by passing b""."""
 
+    # True while input has been consumed since the last complete member/frame:
+    # a body that ends in this state is a truncated compressed stream.
+    mid_stream: bool = False
+
 
 class ConcatDecompressionHandler(DecompressionBaseHandler, Generic[_DecompressObjT]):
     """Handler for a codec whose streams may concatenate independent members.
@@ -375,6 +379,7 @@ class ZLibDecompressor(ConcatDecompressionHandler[ZLibDecompressObjProtocol]):
         self._zlib_backend: Final = ZLibBackendWrapper(ZLibBackend._zlib_backend)
         self._decompressor = self._new_decompressor()
         self._last_empty = False
+        self.mid_stream = False
 
     def _new_decompressor(self) -> ZLibDecompressObjProtocol:
         return self._zlib_backend.decompressobj(wbits=self._mode)
@@ -385,6 +390,7 @@ class ZLibDecompressor(ConcatDecompressionHandler[ZLibDecompressObjProtocol]):
         if self._pending_unused_data is not None:
             data = self._pending_unused_data + bytes(data)
             self._pending_unused_data = None
+        fed = bool(data) or bool(self._decompressor.unconsumed_tail)
         result = self._decompressor.decompress(
             self._decompressor.unconsumed_tail + data, max_length
         )
@@ -395,6 +401,10 @@ class ZLibDecompressor(ConcatDecompressionHandler[ZLibDecompressObjProtocol]):
 
         # Only way to know that isal has no further data is checking we get no output
         self._last_empty = result == b""
+
+        if fed or self.mid_stream:
+            # before the gzip reset below hides that a member just ended
+            self.mid_stream = not self._decompressor.eof
 
         # Member ended exactly at chunk boundary — no unused_data, but the
         # next feed_data() call would fail on the spent decompressor.
@@ -460,6 +470,8 @@ class BrotliDecompressor(DecompressionBaseHandler):
                 result = cast(bytes, self._obj.process(data, max_length))
         # Only way to know that brotli has no further data is checking we get no output
         self._last_empty = result == b""
+        if data or self.mid_stream:
+            self.mid_stream = not self._obj.is_finished()
         return result
 
     def flush(self) -> bytes:
@@ -505,6 +517,7 @@ class ZSTDDecompressor(ConcatDecompressionHandler["ZstdDecompressor"]):
         if self._pending_unused_data is not None:
             data = self._pending_unused_data + data
             self._pending_unused_data = None
+        fed = bool(data) or not self._decompressor.needs_input
         result = self._decompressor.decompress(data, zstd_max_length)
 
         # Concatenated zstd stream: decode the frames after this one.
@@ -514,6 +527,9 @@ class ZSTDDecompressor(ConcatDecompressionHandler["ZstdDecompressor"]):
         # Frame ended exactly at chunk boundary — no unused_data, but the
         # next feed_data() call would fail on the spent decompressor.
         # Prepare a fresh one for the next chunk.
+        if fed or self.mid_stream:
+            # before the reset below hides that a frame just ended
+            self.mid_stream = not self._decompressor.eof
         if self._decompressor.eof:
             self._decompressor = self._new_decompressor()
 
